@@ -14,3 +14,9 @@ def register(add):
         decls='ep_st *s; const uint8_t *msg; size_t len; ep2_st *q;', call='cp_bls_ver(s, msg, len, q)', flags=['--object-bits', '10'], timeout=600,
         replace=[G('ep_map_sswum'), G('ep_copy'), G('ep2_copy'), G('ep2_curve_get_gen'), G('ep2_neg'), G('pp_map_sim_oatep_k12'), G('fp12_cmp_dig'), G('g2_is_valid')],
         note='every callee is an ABSTRACT contract (frame + recorded verdict)', bound_note='loop-free after callee replacement')
+    add('cp_ecies_dec', ['C08'], 'cp_ecies_dec', sources=['src/cp/relic_cp_ecies.c', 'src/bn/relic_bn_mem.c', 'src/bn/relic_bn_util.c'], headers=['cp_ecies.h', 'cp_ecies_state.h'],
+        conf='base', route='proof', unwind=70, flags=['--object-bits', '10'], timeout=900,
+        decls='uint8_t *out; size_t *out_len; ep_st *r; const uint8_t *in; size_t in_len; bn_st *d;', call='cp_ecies_dec(out, out_len, r, in, in_len, d)',
+        replace=[G('util_bits_dig'), G('ep_param_level'), G('ep_mul_lwnaf'), G('fp_prime_back'), G('md_kdf'), G('md_hmac'), G('util_cmp_sec'), G('bc_aes_cbc_dec')],
+        note='callees abstract; bn_size_bin/bn_bits/bn_write_bin of the shared secret are the real code (inlined)',
+        bound_note='byte loops of bn_write_bin bounded by the 33-byte coordinate buffer; unwound completely')
